@@ -24,7 +24,7 @@ var stubByName = func() map[string]StubInfo {
 
 func (w *World) runThread(ti int, th *Thread) {
 	m := w.mgrs[th.Mgr]
-	simrt.Gate("thread-start", func() bool { return m.ready })
+	simrt.Gate("thread-start", func() bool { return m.readyA.Load() })
 	defer func() {
 		if r := recover(); r != nil {
 			simrt.RecordPanic(r)
@@ -55,6 +55,16 @@ func (w *World) runThread(ti int, th *Thread) {
 			w.doClose(m, op.N)
 		case "pause":
 			simrt.Yield("op:pause")
+		case "newcfg":
+			simrt.Yield("op:newcfg")
+			for k := 0; k < 1+9*b2i(w.Cfg.FreeTasks); k++ {
+				w.doNewCfg(m, op)
+			}
+		case "inspect":
+			simrt.Yield("op:inspect")
+			for k := 0; k < 1+29*b2i(w.Cfg.FreeTasks); k++ {
+				w.doInspect(m, op)
+			}
 		}
 	}
 }
@@ -105,7 +115,7 @@ func (w *World) newCall(m *Mgr, ti, oi int, op *Op) *Call {
 	case "rpc", "ucast":
 		c.Members = []int{op.Node}
 	default:
-		if cr := m.cfgs[op.Cfg]; cr != nil {
+		if cr := w.cfgOf(m, op.Cfg); cr != nil {
 			c.Members = append([]int(nil), cr.Servers...)
 		}
 	}
@@ -167,10 +177,11 @@ func (w *World) doCall(m *Mgr, ti, oi int, op *Op) *Call {
 			return nil
 		}
 	default:
-		if m.cfgs[op.Cfg] == nil {
+		cr := w.cfgOf(m, op.Cfg)
+		if cr == nil {
 			return nil
 		}
-		cfg = m.cfgs[op.Cfg].cfg
+		cfg = cr.cfg
 	}
 	var opts []gorums.CallOption
 	if op.NoSendWait {
@@ -294,11 +305,11 @@ func (w *World) doClose(m *Mgr, n int) {
 	if n < 1 {
 		n = 1
 	}
-	simrt.Gate("close:wait-ready", func() bool { return m.ready })
+	simrt.Gate("close:wait-ready", func() bool { return m.readyA.Load() })
 	w.ev("close-invoke", "mgr=%d n=%d", m.Idx, n)
 	w.mu.Lock()
 	if !m.closed {
-		m.closeInvokedAt = w.simTime
+		m.closeInvokedAt = w.elapsed()
 	}
 	m.closed = true
 	w.mu.Unlock()
@@ -408,3 +419,115 @@ func (w *World) startObservers(m *Mgr, ti int, c *Call) {
 }
 
 var _ proto.Message
+
+// doNewCfg builds a further configuration from existing ones (And / Except / WithoutNodes /
+// WithNodeIDs / WithNewNodes), concurrently with whatever else is going on.
+func (w *World) doNewCfg(m *Mgr, op *Op) {
+	defer func() {
+		if r := recover(); r != nil {
+			simrt.RecordPanic(r)
+		}
+	}()
+	var a, b *zsvc.Configuration
+	w.mu.Lock()
+	var live []*CfgRec
+	for _, c := range m.cfgs {
+		if c != nil {
+			live = append(live, c)
+		}
+	}
+	w.mu.Unlock()
+	if len(live) == 0 {
+		return
+	}
+	a = live[op.Cfg%len(live)].cfg
+	b = live[(op.Cfg+op.N)%len(live)].cfg
+	var opt gorums.NodeListOption
+	switch op.Stub {
+	case "and":
+		opt = a.And(b)
+	case "except":
+		opt = a.Except(b)
+	case "without":
+		ids := a.NodeIDs()
+		if len(ids) > 1 {
+			opt = a.WithoutNodes(ids[0])
+		} else {
+			opt = a.And(b)
+		}
+	case "ids":
+		opt = gorums.WithNodeIDs(a.NodeIDs())
+	default:
+		// also brings in servers the manager does not know yet (the node pool grows and is re-sorted)
+		nm := map[string]uint32{}
+		for si := 0; si < w.Cfg.NServers; si++ {
+			nm[addrOf(si)] = nodeID(si)
+		}
+		opt = a.WithNewNodes(gorums.WithNodeMap(nm))
+	}
+	cfg, err := m.mgr.NewConfiguration(m.qspec, opt)
+	if err != nil || cfg == nil {
+		return
+	}
+	var srvs []int
+	for _, id := range cfg.NodeIDs() {
+		srvs = append(srvs, m.nodeSrv[id])
+	}
+	w.mu.Lock()
+	m.cfgs = append(m.cfgs, &CfgRec{cfg: cfg, Servers: srvs})
+	w.mu.Unlock()
+}
+
+// doInspect reads manager, configuration and node state through the public accessors.
+func (w *World) doInspect(m *Mgr, op *Op) {
+	defer func() {
+		if r := recover(); r != nil {
+			simrt.RecordPanic(r)
+		}
+	}()
+	_ = m.mgr.NodeIDs()
+	_ = m.mgr.Size()
+	nodes := m.mgr.Nodes()
+	for _, n := range nodes {
+		_ = n.ID()
+		_ = n.Address()
+		_ = n.LastErr()
+		_ = n.Latency()
+		_ = n.FullString()
+	}
+	raw := append([]*gorums.RawNode(nil), m.mgr.RawManager.Nodes()...)
+	switch op.N % 3 {
+	case 0:
+		gorums.OrderedBy(gorums.LastNodeError, gorums.ID).Sort(raw)
+	case 1:
+		gorums.OrderedBy(gorums.Port).Sort(raw)
+	}
+	w.mu.Lock()
+	var c *CfgRec
+	if len(m.cfgs) > 0 {
+		c = m.cfgs[op.Cfg%len(m.cfgs)]
+	}
+	w.mu.Unlock()
+	if c != nil {
+		_ = c.cfg.NodeIDs()
+		_ = c.cfg.Nodes()
+		_ = c.cfg.Size()
+	}
+}
+
+// cfgOf returns configuration i of manager m (configurations may be added concurrently).
+func (w *World) cfgOf(m *Mgr, i int) *CfgRec {
+	w.mu.Lock()
+	defer w.mu.Unlock()
+	if i < 0 || i >= len(m.cfgs) {
+		return nil
+	}
+	return m.cfgs[i]
+}
+
+func b2i(b bool) int {
+	if b {
+		return 1
+	}
+	return 0
+}
